@@ -130,3 +130,23 @@ Proof.
   - apply sqrt_pow2. assumption.
   - apply pow2_sqrt. assumption.
 Qed.
+
+Lemma rpower_cube_root : forall y, 0 < y -> Rpower (y ^ 3) (1 / 3) = y.
+Proof.
+  intros y Hy. rewrite <- (Rpower_pow 3 y Hy). rewrite Rpower_mult.
+  replace (INR 3 * (1 / 3)) with 1 by (simpl; field). apply Rpower_1. assumption.
+Qed.
+
+(* cbrt(x) = if x > 0 then x^(1/3) else -(-x)^(1/3).  x = 0 is excluded: Coq's Rpower 0 y is 1
+   (ln 0 = 0 by convention), which is an artefact of the real-number library, not of numbat *)
+Lemma cbrt_cube : forall x, x <> 0 -> nbt_cbrt (x ^ 3) = x.
+Proof.
+  intros x Hx. unfold nbt_cbrt.
+  destruct (Rtotal_order x 0) as [L|[L|L]]; [|contradiction|].
+  - assert (Hneg : x ^ 3 < 0).
+    { replace (x ^ 3) with (- ((- x) ^ 3)) by ring. assert (0 < (- x) ^ 3) by (apply pow_lt; lra). lra. }
+    destruct (Rlt_dec 0 (x ^ 3)) as [H|H]; [lra|].
+    replace (- x ^ 3) with ((- x) ^ 3) by ring. rewrite rpower_cube_root by lra. ring.
+  - assert (Hpos : 0 < x ^ 3) by (apply pow_lt; assumption).
+    destruct (Rlt_dec 0 (x ^ 3)) as [H|H]; [|lra]. apply rpower_cube_root. assumption.
+Qed.
